@@ -26,6 +26,16 @@ CHECKS = {
          "All combinations of default mode x binding shape (absent, v4, v6, dual in both orders, removed, re-bound) x mode in force when bound x allowed-range sets, each probed with bound / near-miss / byte-reversed / random IPv4 and IPv6 sources, non-IP frames and every truncation; the maps are produced by the manager's own code writing into kernel maps of the loaded working-tree object, so key and value encodings are the real ones.",
          "Trusted: the reference decision function; the native shim (cross-checked frame by frame against the in-kernel run; a disagreement is reported inconclusive). IPv6 loose mode is not judged.",
          "DESIGN.md §5 C18"),
+ "C11": ("c11_ppp_fsm", "exploration",
+         "online trace monitor over the real LCP/IPCP/IPv6CP automata under testing/synctest virtual time: breadth-first exploration of event sequences with state fingerprinting plus seeded random walks, each ending in a silent-peer run",
+         "The monitor reconstructs, only from packets handed to the send callback and events delivered, whether the peer acked our latest Configure-Request and whether we acked the peer's latest one; IsOpened is judged against that after every event, leave-Opened events are judged, every reply is checked (identifier echo, Ack data byte-identical, Nak/Reject only offending options, IPCP acks only the assigned address) and every sequence ends with (MaxConfigure+MaxTerminate+2) x RestartTimer of silence after which the automaton must rest with bounded retransmissions. BFS to depth 7 (quick) / fixed point or depth 16 (thorough) over 9 automaton configurations, timer-vs-packet orders forced both ways.",
+         "Trusted: the monitor's reading of 'acknowledged' (identifier match) and testing/synctest virtual time. Malformed packets are C09's alphabet. Default-parameter configurations do not reach a BFS fixed point within the depth bound.",
+         "DESIGN.md §5 C11"),
+ "C17": ("c17_hrw", "exploration",
+         "cross-node agreement monitor: many independently configured real PeerPool nodes are compared with each other (never with a re-implementation of the hash), health is set only through the real checkPeer against harness HTTP servers, and 3-node clusters are driven end to end over loopback HTTP",
+         "For 134+ peer sets (sizes 1-8, arbitrary strings) x all configuration orders (all permutations up to size 5) x 10^3-10^4 subscriber ids: same owner on every node, ranked list starts with the owner and is a permutation of the peer set, removal/unhealthy moves only the affected peer's subscribers (all 2^n health vectors for n<=4/6), and a request entering at any of 3 real nodes is served by exactly one pool with the same NodeID.",
+         "Trusted: the comparison logic; loopback HTTP. FNV-64 score ties are not generated; concurrent ring changes are outside C17's quantifier.",
+         "DESIGN.md §5 C17"),
 }
 
 REASON_TODO = "check not yet built in this revision of /verif (planned in DESIGN.md §5); nothing is claimed for it"
